@@ -35,7 +35,7 @@ ASSUMPTIONS = ['colour is switched off with colorful.disable() for cpprint, as t
 P = PP = None
 VALUES = []
 REPR_CAPABLE = []
-DOM = dict(indent=[1, 2, 4, 8], width=[1, 10, 20, 40, 79, 120], ribbon_width=[1, 10, 40, 71, 200],
+DOM = dict(indent=[1, 2, 4, 8], width=[1, 10, 20, 40, 79, 120, 400], ribbon_width=[1, 10, 40, 71, 200, 400],
            depth=[None, 0, 1, 2, 5], max_seq_len=[1, 2, 3, 1000],
            sort_dict_keys=[False, True])
 KEYS = ['indent', 'width', 'depth', 'ribbon_width', 'max_seq_len', 'sort_dict_keys']
@@ -44,6 +44,18 @@ ENTRIES = ['pformat', 'pprint_stream', 'pprint_stdout', 'cpprint_stream', 'cppri
            'pretty_repr', 'PP_pformat', 'PP_pprint_stream', 'PP_pprint_stdout']
 ENDS = ['\n', '', None, 'XYZ', '\n\n']
 FAULTS = ['EPIPE', 'ENOSPC', 'closed']
+
+
+class FalsyStream(list):
+    """a perfectly good stream object that is falsy as long as nothing was written to it"""
+    fired = False
+
+    def write(self, t):
+        self.append(t)
+        return len(t)
+
+    def text(self):
+        return ''.join(self)
 
 
 class Reg:
@@ -210,6 +222,7 @@ def setup():
         {'old': OldStyle([1, 2, {'z': 1, 'a': 2}]), 'more': [OldStyle('x')] * 2},
     ]
     VALUES.extend([
+        {'ids': list(range(60)), 'name': 'x'},
         [HMemoStr(), {'again': HMemoStr()}],
         Invoice(2, BoxU(Money(10, 'EUR'))),
         {'t': Table(), 'more': [Table()]},
@@ -232,7 +245,7 @@ def generate(rng, idx, tier):
             ops.append(['pp_new', {s_: rng.choice(DOM[s_]) for s_ in KEYS if rng.random() < p_explicit}])
             continue
         if k == 'pp_use':
-            ops.append(['pp_use', rng.randrange(4), rng.randrange(21), rng.choice(['pformat', 'pprint'])])
+            ops.append(['pp_use', rng.randrange(4), rng.randrange(22), rng.choice(['pformat', 'pprint'])])
             continue
         if k == 'set':
             sub = {s: rng.choice(DOM[s]) for s in SETTABLE if rng.random() < p_set}
@@ -243,7 +256,7 @@ def generate(rng, idx, tier):
             ops.append(['get'])
         else:
             entry = rng.choice(ENTRIES)
-            v = rng.randrange(len(VALUES) if VALUES else 21)
+            v = rng.randrange(len(VALUES) if VALUES else 22)
             explicit = {s: rng.choice(DOM[s]) for s in KEYS if rng.random() < p_explicit}
             end = rng.choice(ENDS)
             if k == 'faulty':
@@ -406,7 +419,9 @@ def execute(spec):
             exp, how = _expected(v, eff)
             bump('oracle_' + how)
             endtxt = end or ''
-            st = SimStream(fail_at, fault)
+            st = SimStream(fail_at, fault) if (fail_at is not None or len(spec['ops']) % 3) else FalsyStream()
+            if isinstance(st, FalsyStream):
+                bump('falsy_stream_calls')
             wrote = None
             bump('entry_' + entry)
             if any(s not in explicit for s in changed_defaults):
